@@ -4,6 +4,7 @@
 package clients
 
 import (
+	"sort"
 	"testing"
 
 	sdk "github.com/cosmos/cosmos-sdk/types"
@@ -16,9 +17,52 @@ import (
 type env struct {
 	t     *testing.T
 	r     *hx.Rng
-	o     *hx.Out
 	chain *ibctesting.TestChain
 	ctx   sdk.Context
+	o     *buffer
+}
+
+// buffer collects the records of all sub-families and writes them interleaved (record j of n of a kind
+// at relative position (j+0.5)/n), so that every Coq shard of the driver gets a similar mix of cheap and
+// expensive records.
+type buffer struct {
+	byKind map[string][]hx.Rec
+	kinds  []string
+}
+
+func (b *buffer) Emit(k string, in, out any, tag ...string) {
+	r := hx.Rec{K: k, In: in, Out: out}
+	if len(tag) > 0 {
+		r.Tag = tag[0]
+	}
+	if _, ok := b.byKind[k]; !ok {
+		b.kinds = append(b.kinds, k)
+	}
+	b.byKind[k] = append(b.byKind[k], r)
+}
+
+func (b *buffer) flush(o *hx.Out) {
+	type item struct {
+		pos float64
+		ord int
+		r   hx.Rec
+	}
+	var items []item
+	for ki, k := range b.kinds {
+		n := len(b.byKind[k])
+		for j, r := range b.byKind[k] {
+			items = append(items, item{pos: (float64(j) + 0.5) / float64(n), ord: ki, r: r})
+		}
+	}
+	sort.SliceStable(items, func(i, j int) bool {
+		if items[i].pos != items[j].pos {
+			return items[i].pos < items[j].pos
+		}
+		return items[i].ord < items[j].ord
+	})
+	for _, it := range items {
+		o.Emit(it.r.K, it.r.In, it.r.Out, it.r.Tag)
+	}
 }
 
 // hp renders a possibly-nil byte slice: nil -> JSON null, otherwise hex.
@@ -39,9 +83,10 @@ func TestFamily(t *testing.T) {
 	// a path gives the IBC store realistic contents (clients, connections, channels)
 	path := ibctesting.NewPath(chain, coord.GetChain(ibctesting.GetChainID(2)))
 	path.Setup()
-	e := &env{t: t, r: r, o: o, chain: chain, ctx: chain.GetContext()}
+	e := &env{t: t, r: r, o: &buffer{byKind: map[string][]hx.Rec{}}, chain: chain, ctx: chain.GetContext()}
 	famLocalhost(e)
 	famSolo(e)
 	famAttest(e)
+	e.o.flush(o)
 	t.Logf("records=%d", o.Count())
 }
